@@ -26,6 +26,7 @@ import (
 	"testing"
 	"time"
 
+	"github.com/osrg/gobgp/v4/api"
 	"github.com/osrg/gobgp/v4/pkg/config/oc"
 	"github.com/osrg/gobgp/v4/pkg/packet/bgp"
 )
@@ -1462,9 +1463,247 @@ func c10CheckReadback(o *vOut, rp *RoutingPolicy, cfg *oc.RoutingPolicy, p *c10P
 		wantRT := ROUTE_TYPE_ACCEPT
 		if a.dflt == 2 {
 			wantRT = ROUTE_TYPE_REJECT
+		} else if a.dflt == 0 {
+			wantRT = ROUTE_TYPE_NONE
 		}
 		if rt != wantRT || !reflect.DeepEqual(names, wantN) {
 			o.fail("config-roundtrip:assignment", map[string]any{"id": a.id, "dir": a.dir.String(), "configured": wantN, "readback": names, "default": rt})
+		}
+	}
+	c10CheckApiListing(o, rp, p)
+}
+
+// ---------- the API form of every listing (ListPolicy, ListPolicyAssignment), field by field ----------
+
+func c10MatchSetStr(m *api.MatchSet) string {
+	if m == nil {
+		return "-"
+	}
+	return fmt.Sprintf("%d:%s", m.Type, m.Name)
+}
+
+// canonical text of an API statement as returned by a listing
+func c10ApiStmtStr(st *api.Statement) string {
+	var b strings.Builder
+	c, a := st.Conditions, st.Actions
+	fmt.Fprintf(&b, "%s | ps %s ns %s as %s cs %s es %s ls %s", st.Name, c10MatchSetStr(c.PrefixSet), c10MatchSetStr(c.NeighborSet),
+		c10MatchSetStr(c.AsPathSet), c10MatchSetStr(c.CommunitySet), c10MatchSetStr(c.ExtCommunitySet), c10MatchSetStr(c.LargeCommunitySet))
+	if c.CommunityCount != nil {
+		fmt.Fprintf(&b, " cc %d:%d", c.CommunityCount.Type, c.CommunityCount.Count)
+	} else {
+		b.WriteString(" cc -")
+	}
+	if c.AsPathLength != nil {
+		fmt.Fprintf(&b, " al %d:%d", c.AsPathLength.Type, c.AsPathLength.Length)
+	} else {
+		b.WriteString(" al -")
+	}
+	fmt.Fprintf(&b, " rpki %d rt %d org %d nh %v afi", c.RpkiResult, c.RouteType, c.Origin, c.NextHopInList)
+	for _, f := range c.AfiSafiIn {
+		fmt.Fprintf(&b, " %d/%d", f.Afi, f.Safi)
+	}
+	if c.LocalPrefEq != nil {
+		fmt.Fprintf(&b, " lpeq %d", c.LocalPrefEq.Value)
+	} else {
+		b.WriteString(" lpeq -")
+	}
+	if c.MedEq != nil {
+		fmt.Fprintf(&b, " medeq %d", c.MedEq.Value)
+	} else {
+		b.WriteString(" medeq -")
+	}
+	ca := func(x *api.CommunityAction) string {
+		if x == nil {
+			return "-"
+		}
+		return fmt.Sprintf("%d%v", x.Type, x.Communities)
+	}
+	fmt.Fprintf(&b, " || ra %d comm %s ext %s large %s", a.RouteAction, ca(a.Community), ca(a.ExtCommunity), ca(a.LargeCommunity))
+	if a.Med != nil {
+		fmt.Fprintf(&b, " med %d:%d", a.Med.Type, a.Med.Value)
+	} else {
+		b.WriteString(" med -")
+	}
+	if a.LocalPref != nil {
+		fmt.Fprintf(&b, " lp %d", a.LocalPref.Value)
+	} else {
+		b.WriteString(" lp -")
+	}
+	if a.AsPrepend != nil {
+		fmt.Fprintf(&b, " prep %d:%d:%v", a.AsPrepend.Asn, a.AsPrepend.Repeat, a.AsPrepend.UseLeftMost)
+	} else {
+		b.WriteString(" prep -")
+	}
+	if a.Nexthop != nil {
+		fmt.Fprintf(&b, " nh %q self=%v peer=%v unch=%v", a.Nexthop.Address, a.Nexthop.Self, a.Nexthop.PeerAddress, a.Nexthop.Unchanged)
+	} else {
+		b.WriteString(" nh -")
+	}
+	if a.OriginAction != nil {
+		fmt.Fprintf(&b, " org %d", a.OriginAction.Origin)
+	} else {
+		b.WriteString(" org -")
+	}
+	return b.String()
+}
+
+// the same text written from the descriptor (what was configured), independently of any gobgp conversion
+func c10WantApiStmtStr(st *c10Stmt) string {
+	sets := map[int]string{0: "-", 1: "-", 7: "-", 8: "-", 9: "-", 10: "-"}
+	cc, al, rpki, rt, org, lpeq, medeq := "-", "-", 0, 0, 0, "-", "-"
+	nh := []string{}
+	afi := ""
+	for _, c := range st.conds {
+		switch c.tag {
+		case 0, 1, 7, 8, 9, 10:
+			sets[c.tag] = fmt.Sprintf("%d:%s", c.opt+1, c.set.name()) // MatchSet_Type: any 1, all 2, invert 3
+		case 2:
+			cc = fmt.Sprintf("%d:%d", c.op+1, c.val)
+		case 3:
+			al = fmt.Sprintf("%d:%d", c.op+1, c.val)
+		case 4:
+			rpki = []int{0, 3, 2, 4}[c.val] // valid 3, not-found 2, invalid 4
+		case 5:
+			rt = int(c.val)
+		case 6:
+			org = int(c.val) + 1
+		case 11:
+			for _, a := range c.nets {
+				nh = append(nh, a.String())
+			}
+		case 12:
+			for _, f := range c.fams {
+				afi += []string{" 1/1", " 2/1", " 1/128"}[f]
+			}
+		case 13:
+			lpeq = fmt.Sprint(c.val)
+		case 14:
+			medeq = fmt.Sprint(c.val)
+		}
+	}
+	comm, ext, large, med, lp, prep, nha, orga := "-", "-", "-", "-", "-", "-", "-", "-"
+	for _, a := range st.acts {
+		switch a.tag {
+		case 0:
+			l := []string{}
+			for _, c := range a.comms {
+				if a.op == 1 {
+					l = append(l, "^"+c10CommStr(c)+"$")
+				} else {
+					l = append(l, c10CommStr(c))
+				}
+			}
+			comm = fmt.Sprintf("%d%v", a.op+1, l)
+		case 1:
+			l := []string{}
+			for _, e := range a.exts {
+				if a.op == 1 {
+					l = append(l, fmt.Sprintf("%s:^%d:%d$", c10SubNames[e.sub], e.as, e.la))
+				} else {
+					l = append(l, c10ExtValueStr(e))
+				}
+			}
+			if len(l) > 0 {
+				ext = fmt.Sprintf("%d%v", a.op+1, l)
+			}
+		case 2:
+			l := []string{}
+			for _, x := range a.larges {
+				if a.op == 1 {
+					l = append(l, fmt.Sprintf("^%d:%d:%d$", x.a, x.b, x.c))
+				} else {
+					l = append(l, fmt.Sprintf("%d:%d:%d", x.a, x.b, x.c))
+				}
+			}
+			if len(l) > 0 {
+				large = fmt.Sprintf("%d%v", a.op+1, l)
+			}
+		case 3:
+			switch {
+			case a.replace:
+				med = fmt.Sprintf("2:%d", a.val)
+			case a.neg:
+				med = fmt.Sprintf("1:-%d", a.val)
+			default:
+				med = fmt.Sprintf("1:%d", a.val)
+			}
+		case 4:
+			lp = fmt.Sprint(a.val)
+		case 5:
+			if a.useLast {
+				prep = fmt.Sprintf("0:%d:true", a.rep)
+			} else {
+				prep = fmt.Sprintf("%d:%d:false", a.val, a.rep)
+			}
+		case 6:
+			switch a.kind {
+			case 0:
+				nha = fmt.Sprintf("%q self=false peer=false unch=false", a.addr.String())
+			case 1:
+				nha = `"" self=true peer=false unch=false`
+			case 2:
+				nha = `"" self=false peer=true unch=false`
+			case 3:
+				nha = `"" self=false peer=false unch=true`
+			}
+		case 7:
+			orga = fmt.Sprint(a.val + 1)
+		}
+	}
+	return fmt.Sprintf("st%d | ps %s ns %s as %s cs %s es %s ls %s cc %s al %s rpki %d rt %d org %d nh %v afi%s lpeq %s medeq %s || ra %d comm %s ext %s large %s med %s lp %s prep %s nh %s org %s",
+		st.id, sets[0], sets[1], sets[7], sets[8], sets[9], sets[10], cc, al, rpki, rt, org, nh, afi, lpeq, medeq,
+		st.route, comm, ext, large, med, lp, prep, nha, orga)
+}
+
+func c10ApiField(want, got string) string {
+	w, g := strings.Fields(want), strings.Fields(got)
+	cur := "name"
+	for i := 0; i < len(w) && i < len(g); i++ {
+		switch w[i] {
+		case "ps", "ns", "as", "cs", "es", "ls", "cc", "al", "rpki", "rt", "org", "nh", "afi", "lpeq", "medeq", "ra", "comm", "ext", "large", "med", "lp", "prep":
+			cur = w[i]
+		}
+		if w[i] != g[i] {
+			return cur
+		}
+	}
+	return cur
+}
+
+func c10CheckApiListing(o *vOut, rp *RoutingPolicy, p *c10Prog) {
+	checkPolicy := func(listing string, ap *api.Policy, pol *c10Pol) {
+		if ap.Name != fmt.Sprintf("pol%d", pol.id) || len(ap.Statements) != len(pol.stmts) {
+			o.fail("listing-differs:"+listing+":policy", map[string]any{"policy": ap.Name, "statements": len(ap.Statements), "configured": len(pol.stmts)})
+			return
+		}
+		for i, st := range pol.stmts {
+			want, got := c10WantApiStmtStr(st), c10ApiStmtStr(ap.Statements[i])
+			o.stat("api_listing_statements", 1)
+			if want != got {
+				o.fail("listing-differs:"+listing+":"+c10ApiField(want, got), map[string]any{"listing": listing, "configured": want, "listed": got})
+			}
+		}
+	}
+	for _, pol := range p.pols {
+		if live, ok := rp.policyMap[fmt.Sprintf("pol%d", pol.id)]; ok {
+			checkPolicy("ListPolicy", NewAPIPolicyFromTableStruct(live), pol)
+		}
+	}
+	for _, a := range p.assigns {
+		rt, pols, _ := rp.GetPolicyAssignment(a.id, a.dir)
+		l := NewAPIPolicyAssignmentFromTableStruct(&PolicyAssignment{Name: a.id, Type: a.dir, Policies: pols, Default: rt})
+		wantDir := api.PolicyDirection_POLICY_DIRECTION_IMPORT
+		if a.dir == POLICY_DIRECTION_EXPORT {
+			wantDir = api.PolicyDirection_POLICY_DIRECTION_EXPORT
+		}
+		wantDef := []api.RouteAction{api.RouteAction_ROUTE_ACTION_UNSPECIFIED, api.RouteAction_ROUTE_ACTION_ACCEPT, api.RouteAction_ROUTE_ACTION_REJECT}[a.dflt]
+		if l.Name != a.id || l.Direction != wantDir || l.DefaultAction != wantDef || len(l.Policies) != len(a.pols) {
+			o.fail("listing-differs:ListPolicyAssignment:assignment", map[string]any{"id": a.id, "direction": l.Direction.String(), "default": l.DefaultAction.String(),
+				"policies": len(l.Policies), "configured_policies": len(a.pols), "configured_default": a.dflt})
+			continue
+		}
+		for i, pol := range a.pols {
+			checkPolicy("ListPolicyAssignment", l.Policies[i], pol)
 		}
 	}
 }
@@ -1697,6 +1936,7 @@ func TestVerifC10(t *testing.T) {
 			c10EditScenario(t, o, g)
 		}
 		c10MgmtScenario(t, o, g)
+		c10RemovalScenario(t, o, g)
 		{
 			kind := g.r.intn(3)
 			pool := []int{len(c10Comms), 5, len(c10Larges)}[kind]
@@ -2816,7 +3056,52 @@ func c10MgmtScenario(t *testing.T, o *vOut, g *c10Gen) {
 			}()
 			return f()
 		}
-		switch r.intn(10) {
+		switch r.intn(12) {
+		case 10, 11: // the per-peer assignment as (re)configured: SetPeerPolicy with other / shorter / EMPTY lists
+			object, op = "assignment", "set-peer-policy"
+			id := c10PeerIDs[r.intn(len(c10PeerIDs))]
+			ap := oc.ApplyPolicy{}
+			type side struct {
+				pols []*c10Pol
+				dflt int
+			}
+			var sides [2]side
+			for d := 0; d < 2; d++ {
+				n := r.pick(0, 0, 1, 2)
+				perm := r.perm(len(p.pols))
+				var names []string
+				for _, i := range perm[:min(n, len(perm))] {
+					sides[d].pols = append(sides[d].pols, p.pols[i])
+					names = append(names, polName(p.pols[i]))
+				}
+				sides[d].dflt = r.pick(1, 1, 2)
+				def := oc.DEFAULT_POLICY_TYPE_ACCEPT_ROUTE
+				if sides[d].dflt == 2 {
+					def = oc.DEFAULT_POLICY_TYPE_REJECT_ROUTE
+				}
+				if d == 0 {
+					ap.Config.ImportPolicyList, ap.Config.DefaultImportPolicy = names, def
+				} else {
+					ap.Config.ExportPolicyList, ap.Config.DefaultExportPolicy = names, def
+				}
+				if len(names) == 0 {
+					o.stat("mgmt_peer_policy_emptied", 1)
+				}
+			}
+			what = fmt.Sprintf("SetPeerPolicy %s import %v export %v", id, ap.Config.ImportPolicyList, ap.Config.ExportPolicyList)
+			err = call(func() error { return rp.SetPeerPolicy(id, ap) })
+			expectOK = true
+			onSuccess = func() {
+				for _, a := range p.assigns {
+					if a.id == id {
+						d := 0
+						if a.dir == POLICY_DIRECTION_EXPORT {
+							d = 1
+						}
+						a.pols, a.dflt = sides[d].pols, sides[d].dflt
+					}
+				}
+			}
 		case 0, 1, 2, 3, 4: // partial statement edit
 			st := stmts[r.intn(len(stmts))]
 			object = "statement"
@@ -3131,4 +3416,318 @@ func c10DiffWindow(a, b string) string {
 	}
 	lo, hi := max(0, i-260), min(len(a), i+260)
 	return a[lo:hi]
+}
+
+// ---------- accepted removals leave no trace ----------
+//
+// The dual of "a refused request changes nothing": after an ACCEPTED DeletePolicy (all / partial, with /
+// without preserve-statements, by name only / with contents, statements shared with another policy in
+// any position), DeleteStatement, DeleteDefinedSet or DeletePolicyAssignment(all) the read-back of every
+// object — the statement table included — is that of a policy on which the removed object never existed
+// (modulo the documented preserve flag), and re-creating the object under the same name with NEW
+// contents behaves like a first creation: accepted, listed and evaluated as the new contents say.
+// After every step the Lean model, given the descriptors, predicts the live policy.
+
+func c10RemovalScenario(t *testing.T, o *vOut, g *c10Gen) {
+	r := g.r
+	p := g.newProg()
+	rp, _ := c10Load(t, o, p)
+	var routes []*c10Route
+	for j := 0; j < 5; j++ {
+		routes = append(routes, g.newRoute(j))
+	}
+	x := &c10Opts{id: 0, isNil: true}
+	polName := func(pol *c10Pol) string { return fmt.Sprintf("pol%d", pol.id) }
+	stName := func(st *c10Stmt) string { return fmt.Sprintf("st%d", st.id) }
+	// statements that exist without belonging to a policy (preserved by a removal)
+	orphans := map[int]*c10Stmt{}
+	usedBy := func(st *c10Stmt) int {
+		n := 0
+		for _, pol := range p.pols {
+			for _, y := range pol.stmts {
+				if y == st {
+					n++
+					break
+				}
+			}
+		}
+		return n
+	}
+	step := func(object, op, what string) bool {
+		o.stat("removal_"+object+"_"+op, 1)
+		// statement table = statements of the remaining policies + preserved ones, nothing else
+		want := map[string]bool{}
+		for _, pol := range p.pols {
+			for _, st := range pol.stmts {
+				want[stName(st)] = true
+			}
+		}
+		for _, st := range orphans {
+			want[stName(st)] = true
+		}
+		got := map[string]bool{}
+		for _, st := range rp.GetStatement("") {
+			got[st.Name] = true
+		}
+		var extra, missing []string
+		for n := range got {
+			if !want[n] {
+				extra = append(extra, n)
+			}
+		}
+		for n := range want {
+			if !got[n] {
+				missing = append(missing, n)
+			}
+		}
+		sort.Strings(extra)
+		sort.Strings(missing)
+		if len(extra) > 0 {
+			o.fail("removal-left-a-trace:"+object+":"+op, map[string]any{"request": what, "statements_still_listed": extra})
+			return false
+		}
+		if len(missing) > 0 {
+			o.fail("removal-removed-too-much:"+object+":"+op, map[string]any{"request": what, "statements_missing": missing})
+			return false
+		}
+		// policies, defined sets, assignments and their API listings
+		before := o.nFail
+		cfg, _ := p.config()
+		c10CheckReadback(o, rp, cfg, p)
+		if o.nFail != before {
+			return false
+		}
+		// evaluation
+		c10Emit(o, p)
+		o.op("%s", c10OptsLine(x))
+		for _, rt := range routes {
+			o.op("%s", c10RouteLine(rt))
+			stored := rt.path()
+			for _, a := range p.assigns {
+				_, sv := c10Apply(rp, a.id, a.dir, stored, nil)
+				o.ask(sv, "eval %d %d 0", a.slot, rt.id)
+			}
+		}
+		return true
+	}
+	refused := func(object, op, what string, err error) bool {
+		if err == nil {
+			return false
+		}
+		o.fail("removal-or-recreation-refused:"+object+":"+op, map[string]any{"request": what, "error": err.Error()})
+		return true
+	}
+	unassign := func(v *c10Pol) bool {
+		for _, a := range p.assigns {
+			var kept []*c10Pol
+			var names []*oc.PolicyDefinition
+			has := false
+			for _, q := range a.pols {
+				if q == v {
+					has = true
+				} else {
+					kept = append(kept, q)
+					names = append(names, &oc.PolicyDefinition{Name: polName(q)})
+				}
+			}
+			if has {
+				if refused("assignment", "set", a.id, rp.SetPolicyAssignment(a.id, a.dir, names, ROUTE_TYPE_NONE)) {
+					return false
+				}
+				a.pols = kept
+			}
+		}
+		return true
+	}
+	var all []*c10Stmt
+	for _, pol := range p.pols {
+		all = append(all, pol.stmts...)
+	}
+	// A. a policy that shares statements with the configured ones, in any position
+	if len(all) > 0 && r.chance(70) {
+		sh := &c10Pol{id: g.nextPol}
+		g.nextPol++
+		perm := r.perm(len(all))
+		var refs []*Statement
+		for _, i := range perm[:min(len(perm), 1+r.intn(3))] {
+			sh.stmts = append(sh.stmts, all[i])
+			refs = append(refs, &Statement{Name: stName(all[i])})
+		}
+		if refused("policy", "add-refer-existing", polName(sh), rp.AddPolicy(&Policy{Name: polName(sh), Statements: refs}, true)) {
+			return
+		}
+		p.pols = append(p.pols, sh)
+		if r.chance(50) {
+			a := p.assigns[r.intn(len(p.assigns))]
+			names := []*oc.PolicyDefinition{}
+			for _, q := range a.pols {
+				names = append(names, &oc.PolicyDefinition{Name: polName(q)})
+			}
+			names = append(names, &oc.PolicyDefinition{Name: polName(sh)})
+			if refused("assignment", "set", a.id, rp.SetPolicyAssignment(a.id, a.dir, names, ROUTE_TYPE_NONE)) {
+				return
+			}
+			a.pols = append(append([]*c10Pol{}, a.pols...), sh)
+		}
+		if !step("policy", "add-refer-existing", polName(sh)) {
+			return
+		}
+	}
+	for round, rounds := 0, 1+r.intn(2); round < rounds && len(p.pols) > 1; round++ {
+		v := p.pols[r.intn(len(p.pols))]
+		if r.chance(30) && len(v.stmts) > 1 {
+			// B1. partial removal: some statements are taken out of the policy
+			n := 1 + r.intn(len(v.stmts)-1)
+			perm := r.perm(len(v.stmts))
+			out := map[*c10Stmt]bool{}
+			var refs []*Statement
+			for _, i := range perm[:n] {
+				out[v.stmts[i]] = true
+				refs = append(refs, &Statement{Name: stName(v.stmts[i])})
+			}
+			preserve := r.chance(35)
+			what := fmt.Sprintf("DeletePolicy(all=false, preserve=%v) %s statements %d of %d", preserve, polName(v), n, len(v.stmts))
+			if refused("policy", "delete-partial", what, rp.DeletePolicy(&Policy{Name: polName(v), Statements: refs}, false, preserve, c10PeerIDs)) {
+				return
+			}
+			var kept []*c10Stmt
+			for _, st := range v.stmts {
+				if !out[st] {
+					kept = append(kept, st)
+				}
+			}
+			v.stmts = kept
+			for st := range out {
+				if usedBy(st) == 0 && preserve {
+					orphans[st.id] = st
+				}
+			}
+			op := "delete-partial"
+			if preserve {
+				op += "-preserve"
+			}
+			if !step("policy", op, what) {
+				return
+			}
+			continue
+		}
+		// B2. the whole policy: not attached anywhere, then deleted by name only or with its contents
+		if !unassign(v) {
+			return
+		}
+		preserve, byName := r.chance(35), r.chance(60)
+		req := &Policy{Name: polName(v)}
+		if !byName {
+			for _, st := range v.stmts {
+				req.Statements = append(req.Statements, &Statement{Name: stName(st)})
+			}
+		}
+		what := fmt.Sprintf("DeletePolicy(all=true, preserve=%v, by name only=%v) %s", preserve, byName, polName(v))
+		if refused("policy", "delete", what, rp.DeletePolicy(req, true, preserve, c10PeerIDs)) {
+			return
+		}
+		var rest []*c10Pol
+		for _, q := range p.pols {
+			if q != v {
+				rest = append(rest, q)
+			}
+		}
+		p.pols = rest
+		var gone []*c10Stmt
+		for _, st := range v.stmts {
+			if usedBy(st) == 0 {
+				if preserve {
+					orphans[st.id] = st
+				} else {
+					gone = append(gone, st)
+				}
+			}
+		}
+		op := "delete"
+		if preserve {
+			op += "-preserve"
+		}
+		if byName {
+			op += "-by-name"
+		}
+		if !step("policy", op, what) {
+			return
+		}
+		// C. preserved statements that nothing uses can be deleted, and then leave no trace either
+		if preserve && r.chance(60) {
+			for id, st := range orphans {
+				if refused("statement", "delete", stName(st), rp.DeleteStatement(&Statement{Name: stName(st)}, true)) {
+					return
+				}
+				delete(orphans, id)
+				gone = append(gone, st)
+			}
+			if !step("statement", "delete-unused", "preserved statements") {
+				return
+			}
+		}
+		// D. the same policy name again, with NEW contents under the old statement names where those are free
+		nw := &c10Pol{id: v.id}
+		for i, n := 0, 1+r.intn(3); i < n; i++ {
+			st := g.newStmt(p)
+			if i < len(gone) {
+				st.id = gone[i].id
+			}
+			nw.stmts = append(nw.stmts, st)
+		}
+		for _, st := range nw.stmts {
+			for _, c := range st.conds {
+				if c.set != nil {
+					if err := rp.AddDefinedSet(c10MkDefinedSet(t, c.set), true); err != nil {
+						t.Fatalf("C10 removal: %v", err)
+					}
+				}
+			}
+		}
+		pd := oc.PolicyDefinition{Name: polName(nw)}
+		for _, st := range nw.stmts {
+			pd.Statements = append(pd.Statements, c10StmtConfig(st))
+		}
+		np, err := NewPolicy(pd)
+		if err != nil {
+			t.Fatalf("C10 removal: %v", err)
+		}
+		if refused("policy", "re-create", polName(nw)+" with new contents", rp.AddPolicy(np, false)) {
+			return
+		}
+		p.pols = append(p.pols, nw)
+		a := p.assigns[r.intn(len(p.assigns))]
+		names := []*oc.PolicyDefinition{{Name: polName(nw)}}
+		for _, q := range a.pols {
+			names = append(names, &oc.PolicyDefinition{Name: polName(q)})
+		}
+		if refused("assignment", "set", a.id, rp.SetPolicyAssignment(a.id, a.dir, names, ROUTE_TYPE_NONE)) {
+			return
+		}
+		a.pols = append([]*c10Pol{nw}, a.pols...)
+		if !step("policy", "re-create", polName(nw)) {
+			return
+		}
+	}
+	// E. an assignment deleted as a whole: nothing attached, no default (everything is filtered)
+	if r.chance(50) {
+		a := p.assigns[r.intn(len(p.assigns))]
+		if refused("assignment", "delete-all", a.id, rp.DeletePolicyAssignment(a.id, a.dir, nil, true)) {
+			return
+		}
+		a.pols, a.dflt = nil, 0
+		if !step("assignment", "delete-all", a.id+"/"+a.dir.String()) {
+			return
+		}
+		// … and configured again
+		pol := p.pols[r.intn(len(p.pols))]
+		if refused("assignment", "re-create", a.id, rp.SetPolicyAssignment(a.id, a.dir, []*oc.PolicyDefinition{{Name: polName(pol)}}, ROUTE_TYPE_REJECT)) {
+			return
+		}
+		a.pols, a.dflt = []*c10Pol{pol}, 2
+		if !step("assignment", "re-create", a.id) {
+			return
+		}
+	}
+	o.stat("removal_scenarios", 1)
 }
